@@ -105,12 +105,11 @@ fn action(ctx: &mut Ctx, rig: &mut Rig<DefaultRiskManager<State>>, model: &mut M
     true
 }
 
-fn one_case(ctx: &mut Ctx, lay: &std::sync::Arc<Layout>, cfgs: &[Cfg], f_cancel: &Filt, f_close: &Filt, trading: TradingState, close_only: bool) {
-    let links = [Link::Healthy; N_EX];
+fn one_case(ctx: &mut Ctx, lay: &std::sync::Arc<Layout>, links: [Link; N_EX], cfgs: &[Cfg], f_cancel: &Filt, f_close: &Filt, trading: TradingState, close_only: bool) {
     let mut rig = build(lay, links, trading, DefaultRiskManager::<State>::default());
     let mut model = Model::new(lay, links, trading == TradingState::Enabled, &[]);
     let setup = setup_events(lay, cfgs);
-    let input = || format!("all links healthy, trading {trading:?}; setup events={setup:?}; then {}", if close_only { format!("ClosePositions({f_close:?})") } else { format!("CancelOrders({f_cancel:?}) twice") });
+    let input = || format!("links {links:?} (Missing = an exchange that is tracked for market data only: no execution link, no orders, no position), trading {trading:?}; setup events={setup:?}; then {}", if close_only { format!("ClosePositions({f_close:?})") } else { format!("CancelOrders({f_cancel:?}) twice") });
     for ev in &setup {
         let real = ev.real(lay);
         if catch_unwind(AssertUnwindSafe(|| { let _ = rig.engine.process(real); })).is_err() { ctx.fail(L_SETUP, &input, format!("panic in set-up at {ev:?}"), "no panic".into()); return; }
@@ -169,8 +168,15 @@ pub fn run(seed: u64, thorough: bool) -> u64 {
         let f_cancel = fs[(k % fs.len() as u64) as usize].clone();
         let f_close = if k % 3 == 0 { fs[rng.below(fs.len() as u64) as usize].clone() } else { f_cancel.clone() };
         let trading = if k % 5 == 4 { TradingState::Enabled } else { TradingState::Disabled };
-        one_case(&mut ctx, &lay, &cfgs, &f_cancel, &f_close, trading, false);
-        one_case(&mut ctx, &lay, &cfgs, &f_cancel, &f_close, trading, true);
+        // every fourth round the FIRST exchange is tracked for market data only (no execution link; its instruments hold no orders and no
+        // position): requests for the traded exchanges must still reach THEIR links (the table of links is positional by exchange index)
+        let mut links = [Link::Healthy; N_EX];
+        if k % 4 == 1 {
+            links[0] = Link::Missing;
+            for (i, c) in cfgs.iter_mut().enumerate() { if lay.inst_ex[i] == 0 { c.orders = 0; c.pos = 0; } }
+        }
+        one_case(&mut ctx, &lay, links, &cfgs, &f_cancel, &f_close, trading, false);
+        one_case(&mut ctx, &lay, links, &cfgs, &f_cancel, &f_close, trading, true);
         n += 1;
     }
     n
